@@ -419,8 +419,10 @@ class MacroProgram(ElementProgram):
             CASE = skip
         else:
             value = nodes.Value(clause)
-            for switch in reversed(self._switches):
-                if switch is not None:
+            # The case belongs to the switch of an enclosing element (a
+            # switch on this very element is for the descendants).
+            for case_switch in reversed(self._switches[:-1]):
+                if case_switch is not None:
                     break
             else:
                 raise LanguageError(
@@ -434,19 +436,19 @@ class MacroProgram(ElementProgram):
                     [nodes.Alias(["default"], self.default_marker)],
                     nodes.Condition(
                         nodes.BinOp(
-                            switch, nodes.IsNot, self._cancel_marker),
+                            case_switch, nodes.IsNot, self._cancel_marker),
                         nodes.Cache(
                             [value],
                             nodes.Condition(
                                 nodes.Or([
                                     nodes.BinOp(
-                                        value, nodes.Equals, switch),
+                                        value, nodes.Equals, case_switch),
                                     nodes.BinOp(
                                         value, nodes.Equals,
                                         self.default_marker)
                                 ]),
                                 nodes.Cancel(
-                                    [switch], node, self._cancel_marker),
+                                    [case_switch], node, self._cancel_marker),
                             ))
                     ))
 
